@@ -250,8 +250,10 @@ __CPROVER_ensures(((item->type == CBOR_TYPE_BYTESTRING && BS_META(item).type != 
 __CPROVER_ensures(item->type == CBOR_TYPE_ARRAY ==>
                   (g_z.calls == g_zc.n && g_z.ordered &&
                    RET == SIZE_TOTAL(AR_META(item).type == _CBOR_METADATA_DEFINITE ? 1 + spec_shortest_argbytes(AR_META(item).end_ptr) : 2)))
+/* (the order in which a pair's key and value are sized is unspecified in C - both are arguments of one call -
+ * and irrelevant for a sum: no order claim for maps) */
 __CPROVER_ensures(item->type == CBOR_TYPE_MAP ==>
-                  (g_z.calls == 2 * g_zc.n && g_z.ordered &&
+                  (g_z.calls == 2 * g_zc.n &&
                    RET == SIZE_TOTAL(MP_META(item).type == _CBOR_METADATA_DEFINITE ? 1 + spec_shortest_argbytes(MP_META(item).end_ptr) : 2)))
 __CPROVER_ensures(item->type == CBOR_TYPE_TAG ==>
                   (g_z.calls == 1 && g_z.ordered && RET == SIZE_TOTAL(1 + spec_shortest_argbytes(TG_META(item).value))));
